@@ -233,6 +233,9 @@ def c15_one(item):
         try:
             with impl.time_limit(30):
                 c1, v1 = summary("\n".join(new) + "\n")
+        except impl.Timeout:
+            # the per-case time limit (path explosion, loaded machine) is not a verdict about the rewritten contract
+            res['timeouts'] = res.get('timeouts', 0) + 1; continue
         except BaseException as e:
             res['viol'].append((applied, f"rewritten contract fails to analyse: {type(e).__name__}", "\n".join(new))); continue
         res['cases'] += 1
